@@ -248,6 +248,21 @@ theorem r_ok : ∀ (rt : Route) (k : K) (r : Req) (t : Trace),
           cases specHandlers hs (markGroup g r) t <;> cases term <;> simp [Res.bind]
 end
 
+/-- a subroute without error routes is its route list (stated in Props as `subroute_same_rules`) -/
+theorem runHandler_sub_without_errors (rs es : List Route) (k : K) (r : Req) (t : Trace) :
+    runHandler (.sub rs false es) k r t = runRoutes rs k r t := by
+  simp only [runHandler]
+  rw [rs_ok rs reachK r t, rs_ok rs k r t]
+  have hn := specRoutes_no_marker rs r t
+  cases hs : specRoutes rs r t with
+  | cont r' t' => simp [Res.bind, reachK]
+  | stop o =>
+    rw [hs] at hn
+    cases o with
+    | done t' s => simp [Res.bind]
+    | err t' st r' => simp [Res.bind]
+    | reached r' t' => exact absurd hn (by simp [Res.NoMarker])
+
 /-! ### matcher sets as propositions -/
 
 theorem evalSet_true_iff : ∀ (s : List Matcher) (r : Req),
